@@ -1,4 +1,5 @@
 import RsslVerif.Model.Compile
+import RsslVerif.Model.PipelineTyper
 /-!
 # C17 — pipelines are selected and compiled independently
 
@@ -12,7 +13,8 @@ variable {ρ β ε : Type}
 /-- Tie to the source: compile()'s loop has the shape the model mirrors (every regex fact holds). -/
 theorem loop_shape_as_modelled :
     loopShape = ⟨true, true, true, true, true, true, true, true⟩ ∧
-    buildClonesAndSelectsByName = true ∧ hlslReportsEmittedName = true := by decide
+    buildClonesAndSelectsByName = true ∧ hlslReportsEmittedName = true ∧
+    selectPipelineByExactName = true ∧ defaultSetFromSelectedPipeline = true := by decide
 
 /-- use classes of `.pipelines` that keep the selected pipeline the only one read after type checking:
     indexing by the selected index, the selection loop itself, the driver loop, construction -/
@@ -155,5 +157,324 @@ theorem no_multiple_panic (build : Option (Pipeline ρ) → Except ε β) (ps : 
 example : compileLoop (ε := Unit) (fun p => .ok (p.map (·.payload)))
     [⟨"A", 1⟩, ⟨"B", 2⟩, ⟨"C", 3⟩] (.named "B") = .ok [some 2] := rfl
 example : (["A", "B", "C"] : List String).Nodup := by decide
+
+
+/-! ## The type checker's part: the IR pipeline list is a map over the Pipeline blocks
+
+`Model.PipelineTyper` mirrors `type_check_internal` + `parse_pipeline` + `add_stage`.  The theorems below say that the
+pipeline list the type checker hands to `compile()` is obtained definition by definition: element *i* is
+`elabCore (registry where block i stands) (block i)`, nothing else of the file enters (in particular no other Pipeline
+block, and no table built while an earlier block was processed); that deleting other Pipeline blocks from an accepted
+file leaves the file accepted and every remaining element unchanged; and, composed with the selection loop, that the
+result for a pipeline compiled by name is the same in both files. -/
+namespace Typer
+open RsslVerif.Model.PipelineTyper RsslVerif.Gen.PipelineTables
+
+/-- Tie to the source: parse_pipeline / add_stage / parse_blend_state / type_check_internal have the control skeleton
+    the model mirrors.  `entryLookupScansLiveRegistry` is the exact text of the loop over
+    `context.module.function_registry.iter()` in add_stage: an entry name is resolved against the registry as it is when
+    the block is processed, not against a table built earlier. -/
+theorem typer_shape_as_modelled :
+    typerShape = ⟨true, true, true, true, true, true, true, true, true, true, true, true, true, true, true, true, true,
+      true, true, true, true⟩ := by decide
+
+/-- everything pipelines.rs may reach through the typer context: the context itself (handed on to the expression
+    checker), the module (handed to the constant evaluator), the function registry (read only) and the pipeline list -/
+def allowedContextUses : List String := [
+  "context", "context.module",
+  "context.module.function_registry.get_function_implementation()",
+  "context.module.function_registry.get_function_name()",
+  "context.module.function_registry.get_function_signature()",
+  "context.module.function_registry.iter()",
+  "context.module.pipelines.iter()",
+  "context.module.pipelines.push()"]
+
+/-- Tie to the source: pipelines.rs touches no other part of the type checker's state (a name table cached in the
+    context, for example, would be a new entry here and break this obligation). -/
+theorem typer_context_uses_covered : contextUses.all (fun u => allowedContextUses.contains u) = true := by decide
+
+/-- the tables the model is driven by are the ones the Rust `match`es spell out -/
+theorem typer_tables_sane :
+    (stageProps.map (·.1)).Nodup ∧ (stateProps.map (·.1)).Nodup ∧ (blendSubProps.map (·.1)).Nodup ∧
+    stageProps.all (fun p => (stageOfName p.2).isSome) = true := by decide
+
+theorem registryFrom_deletePipes (keep : String → Bool) (items : List Item) (reg : List FnDecl) :
+    registryFrom reg (deletePipes keep items) = registryFrom reg items := by
+  induction items generalizing reg with
+  | nil => rfl
+  | cons it rest ih =>
+    cases it with
+    | func f =>
+      simp only [deletePipes, List.filter_cons, registryFrom, List.foldl_cons, stepReg, if_true]
+      exact ih (registerFn reg f)
+    | pipe d =>
+      by_cases hk : keep d.name = true
+      · simp only [deletePipes, List.filter_cons, hk, registryFrom, List.foldl_cons, stepReg, if_true]
+        exact ih reg
+      · simp only [deletePipes, List.filter_cons, hk, registryFrom, List.foldl_cons, stepReg]
+        exact ih reg
+
+/-- The function registry of a file does not depend on its Pipeline blocks. -/
+theorem registry_ignores_pipelines (keep : String → Bool) (items : List Item) :
+    registryOf (deletePipes keep items) = registryOf items :=
+  registryFrom_deletePipes keep items []
+
+theorem elabCore_name (reg : List FnDecl) (d : PipeDef) (p : IrPipe) (h : elabCore reg d = .ok p) :
+    p.name = d.name := by
+  revert h
+  unfold elabCore
+  split
+  · intro h; cases h
+  · split
+    · intro h; cases h
+    · split
+      · intro h; cases h
+      · split
+        · intro h; cases h
+        · split
+          · intro h; cases h
+          · intro h; cases h; rfl
+
+theorem step_func (s : TState) (f : FnDecl) : step s (.func f) = .ok ⟨registerFn s.reg f, s.pipes⟩ := rfl
+
+/-- what an accepted Pipeline block does to the state -/
+theorem step_pipe_ok (s s1 : TState) (d : PipeDef) (h : step s (.pipe d) = .ok s1) :
+    (s.pipes.any (fun p => p.name == d.name)) = false ∧
+    ∃ p, elabCore s.reg d = .ok p ∧ s1 = ⟨s.reg, s.pipes ++ [p]⟩ := by
+  unfold step at h
+  by_cases hd : (s.pipes.any (fun p => p.name == d.name)) = true
+  · simp [hd] at h
+  · have hd' : (s.pipes.any (fun p => p.name == d.name)) = false := by simpa using hd
+    refine ⟨hd', ?_⟩
+    simp only [hd', Bool.false_eq_true, if_false] at h
+    cases he : elabCore s.reg d with
+    | error e => simp [he] at h
+    | ok p =>
+      simp only [he] at h
+      cases h
+      exact ⟨p, rfl, rfl⟩
+
+theorem typeCheckFrom_cons_ok (s s' : TState) (it : Item) (rest : List Item)
+    (h : typeCheckFrom s (it :: rest) = .ok s') :
+    ∃ s1, step s it = .ok s1 ∧ typeCheckFrom s1 rest = .ok s' := by
+  unfold typeCheckFrom at h
+  cases hs : step s it with
+  | error e => simp [hs] at h
+  | ok s1 => exact ⟨s1, rfl, by simpa [hs] using h⟩
+
+theorem typeCheckFrom_pipes (items : List Item) (s s' : TState) (h : typeCheckFrom s items = .ok s') :
+    s'.reg = registryFrom s.reg items ∧
+    ∃ ps, s'.pipes = s.pipes ++ ps ∧
+      (pipeDefsFrom s.reg items).map (fun rd => elabCore rd.1 rd.2) = ps.map Except.ok := by
+  induction items generalizing s with
+  | nil =>
+    simp only [typeCheckFrom] at h
+    cases h
+    exact ⟨rfl, [], by simp, rfl⟩
+  | cons it rest ih =>
+    obtain ⟨s1, hs, hr⟩ := typeCheckFrom_cons_ok s s' it rest h
+    cases it with
+    | func f =>
+      rw [step_func] at hs
+      cases hs
+      obtain ⟨hreg, ps, hp, hm⟩ := ih _ hr
+      exact ⟨hreg, ps, hp, hm⟩
+    | pipe d =>
+      obtain ⟨_, p, hp, rfl⟩ := step_pipe_ok s s1 d hs
+      obtain ⟨hreg, ps, hps, hm⟩ := ih _ hr
+      refine ⟨hreg, p :: ps, ?_, ?_⟩
+      · simpa using hps
+      · simp only [pipeDefsFrom, List.map_cons, hp]
+        exact congrArg _ hm
+
+/-- **The IR pipeline list is a map over the Pipeline blocks**: element *i* of the list the type checker produces is
+    `elabCore` of the registry where block *i* stands and of block *i* itself. -/
+theorem typeCheck_pipelines_map (items : List Item) (s : TState) (h : typeCheck items = .ok s) :
+    s.reg = registryOf items ∧
+    (pipeDefs items).map (fun rd => elabCore rd.1 rd.2) = s.pipes.map Except.ok := by
+  obtain ⟨hr, ps, hps, hm⟩ := typeCheckFrom_pipes items ⟨[], []⟩ s h
+  refine ⟨hr, ?_⟩
+  simp only [List.nil_append] at hps
+  rw [hps]; exact hm
+
+theorem typeCheckFrom_names (items : List Item) (s s' : TState) (h : typeCheckFrom s items = .ok s')
+    (hnd : (s.pipes.map (·.name)).Nodup) : (s'.pipes.map (·.name)).Nodup := by
+  induction items generalizing s with
+  | nil => simp only [typeCheckFrom] at h; cases h; exact hnd
+  | cons it rest ih =>
+    obtain ⟨s1, hs, hr⟩ := typeCheckFrom_cons_ok s s' it rest h
+    cases it with
+    | func f =>
+      rw [step_func] at hs
+      cases hs
+      exact ih _ hr hnd
+    | pipe d =>
+      obtain ⟨hdup, p, hp, rfl⟩ := step_pipe_ok s s1 d hs
+      refine ih _ hr ?_
+      have hn := elabCore_name _ _ _ hp
+      simp only [List.map_append, List.map_cons, List.map_nil]
+      rw [List.nodup_append]
+      refine ⟨hnd, by simp, ?_⟩
+      intro a ha b hb
+      simp only [List.mem_cons, List.not_mem_nil, or_false] at hb
+      subst hb
+      intro e
+      have : (s.pipes.any (fun p => p.name == d.name)) = true := by
+        obtain ⟨q, hq, hqn⟩ := List.mem_map.1 ha
+        exact List.any_eq_true.2 ⟨q, hq, by simp [hqn, e, hn]⟩
+      rw [hdup] at this
+      cases this
+
+/-- An accepted file has pairwise distinct pipeline names (so the selection theorems apply to it). -/
+theorem typeCheck_names_nodup (items : List Item) (s : TState) (h : typeCheck items = .ok s) :
+    (s.pipes.map (·.name)).Nodup :=
+  typeCheckFrom_names items ⟨[], []⟩ s h (by simp)
+
+theorem deletePipes_func (keep : String → Bool) (f : FnDecl) (rest : List Item) :
+    deletePipes keep (.func f :: rest) = .func f :: deletePipes keep rest := by
+  simp [deletePipes]
+
+theorem deletePipes_pipe_keep (keep : String → Bool) (d : PipeDef) (rest : List Item) (h : keep d.name = true) :
+    deletePipes keep (.pipe d :: rest) = .pipe d :: deletePipes keep rest := by
+  simp [deletePipes, h]
+
+theorem deletePipes_pipe_drop (keep : String → Bool) (d : PipeDef) (rest : List Item) (h : keep d.name = false) :
+    deletePipes keep (.pipe d :: rest) = deletePipes keep rest := by
+  simp [deletePipes, h]
+
+theorem typeCheckFrom_deletePipes (keep : String → Bool) (items : List Item) (s s' : TState)
+    (h : typeCheckFrom s items = .ok s') :
+    typeCheckFrom ⟨s.reg, s.pipes.filter (fun p => keep p.name)⟩ (deletePipes keep items) =
+      .ok ⟨s'.reg, s'.pipes.filter (fun p => keep p.name)⟩ := by
+  induction items generalizing s with
+  | nil => simp only [typeCheckFrom] at h; cases h; rfl
+  | cons it rest ih =>
+    obtain ⟨s1, hs, hr⟩ := typeCheckFrom_cons_ok s s' it rest h
+    cases it with
+    | func f =>
+      rw [step_func] at hs
+      cases hs
+      have := ih _ hr
+      rw [deletePipes_func]
+      simpa [typeCheckFrom, step] using this
+    | pipe d =>
+      obtain ⟨hdup, p, hp, rfl⟩ := step_pipe_ok s s1 d hs
+      have hn := elabCore_name _ _ _ hp
+      have ih' := ih _ hr
+      cases hk : keep d.name with
+      | true =>
+        have hkp : keep p.name = true := by rw [hn]; exact hk
+        have hnodup : ((s.pipes.filter (fun p => keep p.name)).any (fun p => p.name == d.name)) = false := by
+          rw [Bool.eq_false_iff]
+          intro hc
+          obtain ⟨q, hq, hqn⟩ := List.any_eq_true.1 hc
+          have : (s.pipes.any (fun p => p.name == d.name)) = true :=
+            List.any_eq_true.2 ⟨q, (List.mem_filter.1 hq).1, hqn⟩
+          rw [hdup] at this
+          cases this
+        rw [deletePipes_pipe_keep keep d rest hk]
+        simp only [typeCheckFrom, step, hnodup, hp, Bool.false_eq_true, if_false]
+        simpa [List.filter_append, hkp] using ih'
+      | false =>
+        have hkp : keep p.name = false := by rw [hn]; exact hk
+        rw [deletePipes_pipe_drop keep d rest hk]
+        simpa [List.filter_append, hkp] using ih'
+
+/-- **Deleting other Pipeline blocks changes nothing for the ones that stay**: an accepted file stays accepted, its
+    function registry is the same, and its IR pipeline list is the old list restricted to the kept names - each kept
+    element is literally the same value. -/
+theorem typeCheck_delete_others (keep : String → Bool) (items : List Item) (s : TState)
+    (h : typeCheck items = .ok s) :
+    typeCheck (deletePipes keep items) = .ok ⟨s.reg, s.pipes.filter (fun p => keep p.name)⟩ := by
+  have := typeCheckFrom_deletePipes keep items ⟨[], []⟩ s h
+  simpa [typeCheck] using this
+
+/-- `compile()` = front end, then the selection loop over the IR pipeline list.  `build` stands for `build_pipeline`:
+    it sees the module without its pipeline list (here: the function registry) and the selected pipeline. -/
+inductive FileOutcome (β ε : Type) where
+  | frontErr (pipeline : String) (e : Err)
+  | out (o : Outcome β ε)
+
+def toPipeline (p : IrPipe) : Pipeline IrPipe := ⟨p.name, p⟩
+
+def compileFile (build : List FnDecl → Option (Pipeline IrPipe) → Except ε β) (items : List Item) (m : Mode) :
+    FileOutcome β ε :=
+  match typeCheck items with
+  | .error e => .frontErr e.1 e.2
+  | .ok s => .out (compileLoop (build s.reg) (s.pipes.map toPipeline) m)
+
+theorem map_toPipeline_names (ps : List IrPipe) :
+    (ps.map toPipeline).map (·.name) = ps.map (·.name) := by
+  induction ps with
+  | nil => rfl
+  | cons p ps ih => simp [toPipeline, ih]
+
+/-- **Independence, front end included**: for an accepted file, compiling pipeline `n` by name gives the same outcome
+    whether or not the other Pipeline blocks (any set of them that does not contain `n`) are deleted from the file. -/
+theorem independent_of_other_pipelines_file (build : List FnDecl → Option (Pipeline IrPipe) → Except ε β)
+    (items : List Item) (s : TState) (h : typeCheck items = .ok s) (keep : String → Bool) (n : String)
+    (hk : keep n = true) :
+    compileFile build (deletePipes keep items) (.named n) = compileFile build items (.named n) := by
+  have hd := typeCheck_delete_others keep items s h
+  simp only [compileFile, hd, h]
+  congr 1
+  have hnd := typeCheck_names_nodup items s h
+  have hnd1 : ((s.pipes.map toPipeline).map (·.name)).Nodup := by rw [map_toPipeline_names]; exact hnd
+  have hnd2 : (((s.pipes.filter (fun p => keep p.name)).map toPipeline).map (·.name)).Nodup := by
+    rw [map_toPipeline_names]
+    exact List.Nodup.sublist (List.Sublist.map _ List.filter_sublist) hnd
+  by_cases hex : ∃ p ∈ s.pipes, p.name = n
+  · obtain ⟨p, hp, hpn⟩ := hex
+    have h1 : toPipeline p ∈ s.pipes.map toPipeline := List.mem_map_of_mem hp
+    have h2 : toPipeline p ∈ (s.pipes.filter (fun p => keep p.name)).map toPipeline :=
+      List.mem_map_of_mem (List.mem_filter.2 ⟨hp, by rw [hpn]; exact hk⟩)
+    have := independent_of_other_pipelines (build s.reg) _ _ hnd2 hnd1 (toPipeline p) h2 h1
+    simpa [toPipeline, hpn] using this
+  · have hno1 : ∀ q ∈ s.pipes.map toPipeline, q.name ≠ n := by
+      intro q hq e
+      obtain ⟨p, hp, rfl⟩ := List.mem_map.1 hq
+      exact hex ⟨p, hp, e⟩
+    have hno2 : ∀ q ∈ (s.pipes.filter (fun p => keep p.name)).map toPipeline, q.name ≠ n := by
+      intro q hq e
+      obtain ⟨p, hp, rfl⟩ := List.mem_map.1 hq
+      exact hex ⟨p, (List.mem_filter.1 hp).1, e⟩
+    rw [unknown_name_error _ _ n hno1, unknown_name_error _ _ n hno2]
+
+/-- The whole file: one result per Pipeline block, in source order, each computed from the registry where the block
+    stands and the block itself (`typeCheck_pipelines_map`) and from nothing else. -/
+theorem whole_file_one_result_per_block (build : List FnDecl → Option (Pipeline IrPipe) → Except ε β)
+    (f : Pipeline IrPipe → β) (items : List Item) (s : TState) (h : typeCheck items = .ok s) (hne : s.pipes ≠ [])
+    (hb : ∀ p ∈ s.pipes, build s.reg (some (toPipeline p)) = .ok (f (toPipeline p))) :
+    compileFile build items .all = .out (.ok ((s.pipes.map toPipeline).map f)) ∧
+    (pipeDefs items).map (fun rd => elabCore rd.1 rd.2) = s.pipes.map Except.ok := by
+  refine ⟨?_, (typeCheck_pipelines_map items s h).2⟩
+  simp only [compileFile, h]
+  congr 1
+  apply one_per_pipeline_in_order
+  · intro e; exact hne (List.map_eq_nil_iff.1 e)
+  · intro q hq
+    obtain ⟨p, hp, rfl⟩ := List.mem_map.1 hq
+    exact hb p hp
+
+/-- A front-end rejection does not depend on the selection mode. -/
+theorem front_error_independent_of_mode (build : List FnDecl → Option (Pipeline IrPipe) → Except ε β)
+    (items : List Item) (n : String) (e : Err) (m m' : Mode) (h : typeCheck items = Except.error (n, e)) :
+    compileFile build items m = .frontErr n e ∧ compileFile build items m' = .frontErr n e := by
+  simp [compileFile, h]
+
+/-! Non-vacuity: an entry point defined *after* an earlier Pipeline block is found (the lookup scans the live registry);
+    an entry point defined after its own block is not; deleting a block keeps the other element. -/
+def fnCs (n : String) : FnDecl := { name := n, shape := "c", isTemplate := false, hasBody := true, threads := some (8, 1, 1) }
+def blockCs (p f : String) : PipeDef := { name := p, props := [("ComputeShader", .single (.ident f))] }
+
+example : (typeCheck [.func (fnCs "a"), .pipe (blockCs "P0" "a"), .func (fnCs "b"), .pipe (blockCs "P1" "b")]).toOption.map
+    (fun s => s.pipes.map (fun p => (p.name, p.stages.map (·.entryName)))) = some [("P0", ["a"]), ("P1", ["b"])] := by
+  decide
+example : (typeCheck [.pipe (blockCs "P0" "a"), .func (fnCs "a")]).toOption.isNone = true := by decide
+example : (typeCheck (deletePipes (· == "P1")
+    [.func (fnCs "a"), .pipe (blockCs "P0" "a"), .func (fnCs "b"), .pipe (blockCs "P1" "b")])).toOption.map
+    (fun s => s.pipes.map (·.name)) = some ["P1"] := by decide
+
+end Typer
 
 end RsslVerif.Thm.C17
